@@ -1,7 +1,8 @@
 """C08 - no network input can crash or hang a listener or a client.
 
 spec/Robust.tla   the receive pipelines (IP NTP/NTS listener, IP client incl. NTS-KE fetch and NTS
-                  responses, NTS-KE server connection, CSPTP listener and client) as state machines
+                  responses, NTS-KE server connection, CSPTP listener and client, SCION listener incl. SCMP
+                  responder and end-host forwarder, SCION client) as state machines
                   over ABSTRACT inputs (one small enumeration per parsing decision of the code, revealed
                   lazily by the stage that takes the decision); the code's panic sites and its
                   non-advancing extension-field loop are explicit transitions behind named switches.
@@ -74,6 +75,9 @@ def _scdims(c):
     res = []
     for i, g in enumerate(c["rs"]):
         d = tuple(sorted(k for k, v in _CANON.items() if g.get(k, "na") not in ("na", v)))
+        if "ul" in d:
+            # the UDP length matters where the payload is located through it (the authenticator's MAC)
+            d += (g.get("eo", "na"),)
         res.append(d)
     return (c["auth"], tuple(res))
 
@@ -271,8 +275,13 @@ def run(ctx):
         "(or the call does not return 150 ms after its deadline) and the child burns CPU or stays silent for "
         "1.5 s more; memory exhaustion is observed as child death (1.5 GiB mapped / 768 MiB resident watchdog)",
         "children run the real Start*/Measure* functions on loopback addresses 127.8.x.y with software timestamps",
-        "not covered by this check: SCION listener, SCMP responder, end-host forwarder, SCION client, NTS-KE over "
-        "QUIC/SCION; silent peers (a key-exchange server that never answers) belong to C16/C20",
+        "SCION pipelines: same-AS operation without a SCION daemon (daemonAddr \"\"), DRKeys mocked (USE_MOCK_KEYS=true); "
+        "the abstract SCION datagram is enumerated t-wise (at most 2 dimensions deviate from the canonical datagram) and "
+        "replayed as a seeded sample per (outcome, site, deviating dimensions) class: 1 per class (quick), 12 (thorough)",
+        "not covered by this check: NTS-KE over QUIC/SCION (net/scion/quic.go, core/server/ntske_scion.go), NTS inside "
+        "SCION datagrams (same decoder as the IP listener, which is covered), StartSCIONDispatcher as a separate process "
+        "(its code path is the end-host-port listener of StartSCIONServer, which is covered); silent peers (a key-exchange "
+        "server that never answers) belong to C16/C20",
     ]
 
 
